@@ -10,7 +10,7 @@ from . import gen_socket as G
 
 INVS = ["ContractHolds", "AtMostOne", "AbandonedClosed", "NoWedge", "NoGiveUp", "ClosedIsFinal", "QueueBound"]
 
-BASE = dict(MaxConn=3, MaxTask=10, MaxMsg=2, MaxEnv=5, H=2, ConnSubs="FALSE", MsgSubs="FALSE", QCap=10,
+BASE = dict(MaxConn=3, MaxTask=10, MaxMsg=2, MaxEnv=5, H=2, ConnSubs="FALSE", MsgSubs="FALSE", SubSends="FALSE", QCap=10,
             F_ENQ="TRUE", F_DRAIN="TRUE", F_ONE="TRUE", F_CLOSE="TRUE", F_CAP="TRUE", Record="FALSE")
 
 
@@ -42,7 +42,7 @@ def model_check(over=None, kinds="KindsBad", pols="PolMixed", timeout=1500, heap
 
 def simulate_scripts(n, seed, over=None, kinds="KindsAll", pols="PolAll", depth=400, procs=8):
     """TLC -simulate on the recording model: environment scripts of random behaviours."""
-    o = dict(MaxConn=4, MaxTask=16, MaxMsg=3, MaxEnv=10, ConnSubs="TRUE", MsgSubs="TRUE", Record="TRUE")
+    o = dict(MaxConn=4, MaxTask=18, MaxMsg=4, MaxEnv=10, ConnSubs="TRUE", MsgSubs="TRUE", SubSends="TRUE", Record="TRUE")
     o.update(over or {})
     per = max(1, (n + procs - 1) // procs)
     c = cfg(o, kinds, pols, invs=["ContractHolds"], emit=True)
@@ -72,8 +72,7 @@ def to_harness(l2, proto, seed=0):
     rng = random.Random(seed)
     b = G.Builder(proto, rng)
     b.nmsg = 0
-    b.op(op="sub", who="m", kind="message")
-    b.op(op="sub", who="c", kind="connection")
+    b.preamble_subs(sending=True)       # the recording model runs with SubSends = TRUE
     msgs = {}
     for o in l2:
         k = o["op"]
